@@ -48,6 +48,12 @@ func c16Child() {
 		fail("ca: " + err.Error())
 	}
 	out := childOut{}
+	if mode == "twosigners" {
+		out.Witness = runTwoSigners(seed, pool, ca, dir)
+		b, _ := json.Marshal(out)
+		_ = os.WriteFile(filepath.Join(dir, "result.json"), b, 0o644)
+		return
+	}
 	if mode == "witness" {
 		out.Witness = runStaleCacheWitness(pool, dir)
 		b, _ := json.Marshal(out)
@@ -164,7 +170,7 @@ func TestC16(t *testing.T) {
 			jobs = append(jobs, job{"signer", 800000 + i, 1, 600, []int{0, 2, 1}[i%3]})
 		}
 	}
-	jobs = append(jobs, job{"witness", 0, 0, 0, 0})
+	jobs = append(jobs, job{"witness", 0, 0, 0, 0}, job{"twosigners", 0, 0, 0, 0})
 	for f, i := 0, 0; f < nSigner; f, i = f+sBatch, i+1 {
 		// scheduler regimes: default GOMAXPROCS, 2 and 1 processors
 		jobs = append(jobs, job{"signer", f, min(sBatch, nSigner-f), 0, []int{0, 2, 1, 2}[i%4]})
@@ -218,6 +224,12 @@ func TestC16(t *testing.T) {
 			mu.Lock()
 			defer mu.Unlock()
 			tag := fmt.Sprintf("%s first=%d count=%d stress=%d gomaxprocs=%d", jb.mode, jb.first, jb.count, jb.stress, jb.procs)
+			for _, hz := range cr.Hazards {
+				r.Violation("deadlock", "a goroutine re-acquires a lock it holds: "+hz, map[string]any{"batch": tag, "hazard": hz, "child_blocked_until_stopped": cr.TimedOut})
+			}
+			if cr.TimedOut && len(cr.Hazards) > 0 {
+				return
+			}
 			if cr.TimedOut {
 				r.Inconclusive("child watchdog (" + tag + "), goroutine dump in " + cr.Output)
 				return
@@ -248,6 +260,21 @@ func TestC16(t *testing.T) {
 			}
 			if jb.mode == "witness" {
 				r.Set("side_observation_cached_token_after_key_rotation_with_same_kid", co.Witness)
+				return
+			}
+			if jb.mode == "twosigners" {
+				if h, ok := co.Witness["harness"]; ok {
+					r.Inconclusive(fmt.Sprintf("several signers in one instance: %v", h))
+					return
+				}
+				r.Case("several-signers-sharing-a-key-id", true)
+				r.Set("several_signers_in_one_instance", map[string]any{"signers": co.Witness["signers"], "tokens": co.Witness["tokens"], "published_keys": co.Witness["published_keys"]})
+				if ps, ok := co.Witness["problems"].([]any); ok {
+					for _, p := range ps {
+						pm, _ := p.(map[string]any)
+						r.Violation(fmt.Sprint(pm["signature"]), "several jwt finalizers with key stores of their own: "+fmt.Sprint(pm["text"]), pm)
+					}
+				}
 				return
 			}
 			for _, s := range co.Shimmed {
